@@ -292,6 +292,27 @@ theorem chan_no_deadlock (n k : Nat) (hk : 1 ≤ k) (sched : List CEv) (c : Chan
     omega
   · exact chan_progress c hinv
 
+/-- The bounded channels bound the work in flight: in every reachable state neither queue holds
+more than `k` entries, hence at most `2·k` consumed results are not yet handed to the reducer
+(result queue + one per worker) — what the harness asserts on the real code with a slow reducer. -/
+theorem chan_bounded (n k : Nat) (sched : List CEv) (c : Chan) (hrun : crun (Chan.init n k) sched = some c) :
+    c.inQ.length ≤ k ∧ c.outQ.length ≤ k := by
+  have h := crun_bounded sched (Chan.init n k) c (by simp [Chan.init]) hrun
+  have hk : c.k = k := by
+    have : ∀ (l : List CEv) (a b : Chan), crun a l = some b → b.k = a.k := by
+      intro l
+      induction l with
+      | nil => intro a b hr; simp only [crun, Option.some.injEq] at hr; subst hr; rfl
+      | cons e es ih =>
+        intro a b hr
+        simp only [crun] at hr
+        cases hst : cstep a e with
+        | none => simp [hst] at hr
+        | some a1 => simp only [hst] at hr; rw [ih a1 b hr]; exact (cstep_nk hst).2
+    simpa [Chan.init] using this sched _ c hrun
+  rw [hk] at h
+  exact h
+
 /-- Dropping a step-wise run (the result receiver goes away at ANY reachable moment) terminates
 all its threads: afterwards every continuation is finite (bounded by the measure), keeps being able
 to move until feeder and workers have all returned, and no worker consumes more than one further
